@@ -106,7 +106,7 @@ theorem visitStrings_eq (c : Sl) (s : σ) :
     visitStrings V c s = .ok (walkStrings V (items .words c) s) := by
   unfold visitStrings walkStrings
   rw [forEach_eq_runSteps]
-  exact runSteps_foldl _ _ (fun _ _ => rfl) _ _
+  exact runSteps_foldl _ _ (fun t s => by simp only [stripNulChk_eq]) _ _
 
 theorem visitVars_eq (c : Sl) (s : σ) :
     visitVars V c s = .ok (walkVars V (items .bytes c) s) := by
